@@ -182,11 +182,20 @@ def run(prog, rep):
             for n in g.walk():
                 if n['k'] in ('CallExpr', 'CXXMemberCallExpr') and (g.callee(n) or {}).get('id') == f.id:
                     n_calls += 1
-                    p, guarded = g.parent(n), False
+                    p, guarded, below = g.parent(n), False, n
                     while p is not None:
-                        if p['k'] == 'IfStmt' and any(m.get('m') == 'HasEscapedChars' for c in p['c'][:1] if c for m in g.walk(c)):
-                            guarded = True
-                            break
+                        # an if statement or a conditional expression whose condition tests HasEscapedChars, the call being in the 'true' arm
+                        if p['k'] in ('IfStmt', 'ConditionalOperator'):
+                            cond = child(p, 'cond') if p['k'] == 'IfStmt' else p['c'][0]
+                            arm = child(p, 'then') if p['k'] == 'IfStmt' else p['c'][1]
+                            tests = cond is not None and any(m.get('m') == 'HasEscapedChars' for m in g.walk(cond))
+                            negated = cond is not None and strip(cond) is not None and strip(cond)['k'] == 'UnaryOperator' and strip(cond).get('op') == '!'
+                            if negated:
+                                arm = child(p, 'else') if p['k'] == 'IfStmt' else p['c'][2]
+                            if tests and arm is not None and (below is arm or any(x is below for x in g.walk(arm))):
+                                guarded = True
+                                break
+                        below = p
                         p = g.parent(p)
                     if guarded:
                         rep.ok('R2.7', '%s|call %s' % (cls, g.loc(n)))
